@@ -410,6 +410,15 @@ def main(argv=None):
                 harness_errors.append('%s: counterexample for claim %s but no native replay defined (%s)' % (ob.name, v['claim'], path))
                 continue
             ok, out = replay_file(path)
+            for alt in (v.get('alt_inputs') or []):
+                if ok:
+                    break
+                v2 = dict(v)
+                v2['inputs'] = alt
+                path2 = write_replay(prop, ob, v2)
+                ok2, out2 = replay_file(path2)
+                if ok2:
+                    ok, out, path, v = ok2, out2, path2, v2
             if ok:
                 violations += 1
                 exit_code = EXIT_VIOLATION
